@@ -26,6 +26,7 @@ KEEP_SUFFIXES = ("::finalize_input", "::next_level", "::sd_for_key")
 MAX_CALLEE_BLOCKS = 400
 MAX_VIEW_BLOCKS = 2500
 MAX_DEPTH = 6
+MAX_TAIL = 40
 
 
 def _shift_place(p, loff, ret_map):
@@ -295,6 +296,27 @@ OKV = ("Ok", "Some")
 ERRV = ("Err", "None")
 
 
+def _mentions(st, local):
+    """the statement reads `local` (operand / place mention on its right-hand side)"""
+    rv = st.get("rv")
+    if not isinstance(rv, dict):
+        return False
+
+    def pl_has(p):
+        return isinstance(p, dict) and p.get("local") == local
+
+    def op_has(o):
+        return isinstance(o, dict) and (pl_has(o.get("move")) or pl_has(o.get("copy")))
+    for k, v in rv.items():
+        if k in ("use", "op", "l", "r", "repeat") and op_has(v):
+            return True
+        if k in ("ref", "rawptr", "discriminant", "len") and pl_has(v):
+            return True
+        if k == "ops" and any(op_has(o) for o in v):
+            return True
+    return False
+
+
 def _thread_result(f, call, region, retloc, hname):
     """Jump threading for `helper()?` / `match helper() {..}`: the caller re-dispatches on the discriminant of the helper's result right
     after the call. Clone the helper's tail (from each return-value assignment of known variant to the caller's dispatch) once per
@@ -306,9 +328,14 @@ def _thread_result(f, call, region, retloc, hname):
     # outcome-preserving adaptors between the result and its dispatch (`helper().map_err(..)?`): Ok stays Ok / Some becomes Ok, Err stays Err / None becomes Err
     chain = []
     site_loc = retloc
-    for _ in range(4):
+    for _ in range(6):
         cb = blocks[T]
         ct = cb["term"]
+        if ct["k"] == "goto" and not cb["cleanup"] and not any(st.get("place", {}).get("local") == retloc for st in cb["stmts"]) \
+                and not any(_mentions(st, retloc) for st in cb["stmts"]):
+            chain.append(T)   # a plain join block between the result and its dispatch (e.g. the end of a `match` arm)
+            T = ct["target"]
+            continue
         if ct["k"] == "call" and ct.get("name") in ("map_err", "ok_or", "ok_or_else", "or_else") and ct.get("resolved_crate") == "core" and ct.get("target") is not None \
                 and ct["args"] and not ct["dest"]["proj"] and not cb["cleanup"]:
             a0 = ct["args"][0].get("move") or ct["args"][0].get("copy")
@@ -362,34 +389,51 @@ def _thread_result(f, call, region, retloc, hname):
                 return bb
         return sw["otherwise"]
     # exit sites in the region: where retloc receives its value
-    sites = []  # (block id, 'ok'|'err'|None)
+    sites = []  # (block id, 'ok'|'err'|None, payload variant 'Some'|'None'|'Ok'|'Err'|None)
     for bid in region:
         bl = blocks[bid]
         if bl["cleanup"]:
             continue
         var = "none"
-        for st in bl["stmts"]:
+        pay = None
+        for si, st in enumerate(bl["stmts"]):
             if st["k"] == "assign" and not st["place"]["proj"] and st["place"]["local"] == site_loc:
                 rv = st["rv"]
                 a = rv.get("aggregate") if isinstance(rv, dict) else None
                 cb = ((rv.get("use") or {}).get("const") or {}).get("value") if isinstance(rv, dict) and isinstance(rv.get("use"), dict) else None
+                pay = None
                 if kind == "bool":
                     var = ("ok" if cb["bool"] else "err") if isinstance(cb, dict) and "bool" in cb else None
                 elif a and a.get("kind") == "adt" and a.get("variant") in OKV + ERRV:
                     var = "ok" if a["variant"] in OKV else "err"
+                    # Ok(Some(..)) / Ok(None): the payload's own variant, when it is built in the same block
+                    ops = rv.get("ops") or []
+                    pl0 = (ops[0].get("move") or ops[0].get("copy")) if len(ops) == 1 and isinstance(ops[0], dict) else None
+                    if var == "ok" and pl0 and not pl0["proj"]:
+                        for st2 in reversed(bl["stmts"][:si]):
+                            if st2["k"] == "assign" and not st2["place"]["proj"] and st2["place"]["local"] == pl0["local"]:
+                                a2 = st2["rv"].get("aggregate") if isinstance(st2.get("rv"), dict) else None
+                                if a2 and a2.get("kind") == "adt" and a2.get("adt") in ("std::option::Option", "std::result::Result"):
+                                    pay = a2.get("variant")
+                                break
                 else:
                     var = None
         tm = bl["term"]
         if tm["k"] == "call" and not tm["dest"]["proj"] and tm["dest"]["local"] == site_loc:
             var = "err" if (tm.get("callee") or "").endswith("FromResidual::from_residual") else None
+            pay = None
         if var != "none":
-            sites.append((bid, var))
+            sites.append((bid, var, pay))
     if not sites:
         return
     # sites of unknown variant (e.g. a tail `x.map_err(..)`) stay on the unthreaded dispatch, which over-approximates them soundly
     # tail = blocks of the region reachable from the successors of exit-site blocks (until the jump to T), plus the dispatch blocks
+    groups = []
     for variant in ("ok", "err"):
-        starts = [bid for (bid, v) in sites if v == variant]
+        pays = sorted(set(p for (_, v, p) in sites if v == variant), key=lambda x: str(x))
+        for pay in pays:
+            groups.append((variant, pay, [bid for (bid, v, p) in sites if v == variant and p == pay]))
+    for (variant, pay, starts) in groups:
         if not starts:
             continue
         tail = set()
@@ -406,12 +450,16 @@ def _thread_result(f, call, region, retloc, hname):
                     stack.extend(_succs(blocks[x]["term"]))
         if sw_id not in tail:
             continue
-        if any(x in tail for x in starts):
+        if any(x in tail for (x, _, _) in sites):
             continue  # an exit site inside another's tail: do not thread
+        if len(tail) > MAX_TAIL:
+            continue
+        arm = arm_for(variant == "ok")
+        if pay is not None and variant == "ok":
+            arm = _nested_arm(f, arm, pay, hname) or arm   # appends a block: before the ids of the clones are assigned
         mapping = {}
         for x in sorted(tail):
             mapping[x] = len(blocks) + len(mapping)
-        arm = arm_for(variant == "ok")
         for x in sorted(tail):
             ob = blocks[x]
             nb = copy.deepcopy(ob)
@@ -426,6 +474,59 @@ def _thread_result(f, call, region, retloc, hname):
             blocks.append(nb)
         for bid in starts:
             blocks[bid]["term"] = _retarget(blocks[bid]["term"], mapping)
+
+
+def _nested_arm(f, arm, pay, hname):
+    """second-level threading for `Result<Option<T>>` / `Option<Option<T>>` helpers: the success arm of the first dispatch immediately
+    re-dispatches on the payload (`if let Some(x) = helper()? {..}`): arm = [.. v = move (y as Continue|Ok|Some).0 ..; d = discriminant(v)]; switchInt(d).
+    Returns the id of a copy of `arm` that jumps straight to the branch for payload variant `pay`, or None when the arm has another shape."""
+    blocks = f["blocks"]
+    ab = blocks[arm]
+    t = ab["term"]
+    if ab["cleanup"] or t["k"] != "switch" or not ab["stmts"]:
+        return None
+    last = ab["stmts"][-1]
+    if not (last["k"] == "assign" and isinstance(last.get("rv"), dict) and "discriminant" in last["rv"] and not last["rv"]["discriminant"]["proj"]):
+        return None
+    dpl = t["discr"].get("move") or t["discr"].get("copy")
+    if not dpl or dpl["proj"] or dpl["local"] != last["place"]["local"]:
+        return None
+    v = last["rv"]["discriminant"]["local"]
+    # v must be the first dispatch's payload: assigned in this block from `(.. as Continue|Ok|Some).0`
+    okdef = False
+    cur = v
+    for _ in range(4):
+        src_pl = None
+        for st in ab["stmts"][:-1]:
+            if st["k"] == "assign" and not st["place"]["proj"] and st["place"]["local"] == cur:
+                src = (st["rv"].get("use") or {}) if isinstance(st.get("rv"), dict) else {}
+                src_pl = src.get("move") or src.get("copy")
+        if src_pl is None:
+            break
+        pr = src_pl["proj"]
+        if len(pr) == 2 and pr[0]["k"] == "downcast" and pr[0].get("variant") in ("Continue", "Ok", "Some") and pr[1]["k"] == "field" and pr[1].get("idx") == 0:
+            okdef = True
+            break
+        if pr:
+            break
+        cur = src_pl["local"]  # a plain move between locals: follow it
+    if not okdef:
+        return None
+    want = {"None": 0, "Some": 1, "Ok": 0, "Err": 1}.get(pay)
+    tgt = None
+    for (val, bb) in t["targets"]:
+        if val == want:
+            tgt = bb
+    if tgt is None:
+        tgt = t["otherwise"]
+    nb = copy.deepcopy(ab)
+    nb["id"] = len(blocks)
+    nb["origin"] = ab.get("origin")
+    nb["orig_bb"] = ab.get("orig_bb") or [f.get("_name", "?"), arm]
+    nb["threaded"] = "nested:" + pay
+    nb["term"] = {"k": "goto", "target": tgt, "line": t.get("line"), "exp": None, "threaded": "nested:" + pay}
+    blocks.append(nb)
+    return nb["id"]
 
 
 # ---- closure-taking Option/Result combinators ------------------------------------------------------------------------------------
@@ -478,6 +579,38 @@ def _new_block(f, stmts, term, tag):
     n = len(f["blocks"])
     f["blocks"].append({"id": n, "cleanup": False, "stmts": stmts, "term": term, "origin": None, "synth": tag})
     return n
+
+
+def _ctor_of(views, path):
+    """(adt, variant, discr index) when `path` names a tuple-variant constructor of a known enum, else None"""
+    # drop turbofish segments: std::option::Option::<serde_json::Value>::Some -> std::option::Option::Some
+    out, depth = [], 0
+    i = 0
+    while i < len(path):
+        if path.startswith("::<", i) and depth == 0:
+            depth = 1
+            i += 3
+            continue
+        if depth:
+            depth += path[i] == "<"
+            depth -= path[i] == ">"
+            i += 1
+            continue
+        out.append(path[i])
+        i += 1
+    path = "".join(out)
+    if "::" not in path or "<" in path:
+        return None
+    adt, var = path.rsplit("::", 1)
+    std = {"std::option::Option": {"None": 0, "Some": 1}, "std::result::Result": {"Ok": 0, "Err": 1}}
+    if adt in std and var in std[adt]:
+        return (adt, var, std[adt][var])
+    a = (getattr(views, "adts", None) or {}).get(adt)
+    if a and a.get("kind") == "enum":
+        for vv in a.get("variants", []):
+            if vv["name"] == var and len(vv.get("fields", [])) == 1:
+                return (adt, var, vv["idx"])
+    return None
 
 
 def _desugar_transpose(f, bid, pending):
@@ -601,12 +734,20 @@ def _desugar_combinator(views, f, bid, depth, stack, pending):
             cdest, ctarget = pl(r), b_join
         else:
             cdest, ctarget = dest, target
+        ctor = _ctor_of(views, fnitem.get("fn_full") or fnitem["fn"]) or _ctor_of(views, fnitem["fn"])
         local_fn = fnitem["fn"] in views.raw
         call = {"k": "call", "callee": fnitem["fn"], "callee_full": full, "name": fname, "resolved": fnitem["fn"] if local_fn else full, "resolved_full": full,
                 "resolved_local": local_fn, "callee_local": local_fn, "args": [{"move": pl(v)}], "dest": cdest, "target": ctarget, "unwind": t.get("unwind"), "line": line,
                 "exp": None, "synth": True, "gargs": [], "trait": ftrait, "self_ty": fsty, "self_adt": (fsty or "").split("<")[0] or None,
                 "callee_crate": None, "resolved_crate": None, "instance_kind": "Item", "ret_never": False}
-        b_ok = _new_block(f, [mk(pl(v), {"use": {"move": pl(x, fld(okv, okd))}})], call, "combinator-apply")
+        if ctor is not None:
+            # `.map(Some)` / `.map(Value::String)`: the mapper is a tuple-variant constructor: an aggregate, not a call
+            cadt, cvar, cidx_ = ctor
+            b_ok = _new_block(f, [mk(pl(v), {"use": {"move": pl(x, fld(okv, okd))}}),
+                                  mk(cdest, {"aggregate": {"kind": "adt", "adt": cadt, "variant": cvar, "idx": cidx_, "fields": ["0"]}, "ops": [{"move": pl(v)}]})],
+                              {"k": "goto", "target": ctarget, "line": line, "exp": None}, "combinator-ctor")
+        else:
+            b_ok = _new_block(f, [mk(pl(v), {"use": {"move": pl(x, fld(okv, okd))}})], call, "combinator-apply")
     else:
         v = _new_local(f, h["locals"][2]["ty"], "combinator-payload")
         carg = t["args"][cidx]
@@ -887,8 +1028,9 @@ def _desugar_pipeline(views, f, bid, depth, stack):
 class Views:
     """lazy per-function inlined views over a dict of raw function facts"""
 
-    def __init__(self, raw_fns):
+    def __init__(self, raw_fns, adts=None):
         self.raw = raw_fns
+        self.adts = adts or {}
         self.recursive, self.g = _recursive_set(raw_fns)
         self.cache = {}
 
@@ -924,7 +1066,8 @@ class Views:
             # thread re-dispatches on combinator results, innermost (latest) first so that chained combinators compose
             for (target, first_new, retloc, label) in pending:
                 try:
-                    _thread_result(f, {"target": target}, [x["id"] for x in f["blocks"] if x["id"] >= first_new and not x["cleanup"]], retloc, label)
+                    # sites anywhere in the function count (e.g. the `_ => None` arm of a match whose other arm is the combinator)
+                    _thread_result(f, {"target": target}, [x["id"] for x in f["blocks"] if not x["cleanup"]], retloc, label)
                 except Exception:
                     pass
             for bid in own_ids:
